@@ -13,6 +13,8 @@ open Nat Pc Pc.PhiCacheL2 Pc.Spec Classical
 structure RowOK (S l : ℕ) (row : Row) : Prop where
   size : row.size = S
   bits : ∀ w, w < S → WordHoldsQ (Surv l) w (bitsAt row w)
+  /-- the `bits` member fits `uint64_t` -/
+  lt : ∀ w, w < S → bitsAt row w < 2 ^ 64
 
 /-- bits and prefix counts (`count` of word `w` = number of survivors below `240 w` = φ(240 w − 1, l)) -/
 structure RowCnt (S l : ℕ) (row : Row) : Prop extends RowOK S l row where
@@ -33,12 +35,15 @@ theorem getD_replicate {α} (n w : ℕ) (v d : α) (h : w < n) : (Array.replicat
 
 /-- `std::fill(..., sieve_t{0, ~0ull})`: level 3 = the numbers coprime to 2·3·5 -/
 theorem rowOK_init (S : ℕ) : RowOK S 3 (Array.replicate S ((0, 2 ^ 64 - 1) : Word)) := by
-  refine ⟨by simp, fun w hw k hk => ?_⟩
-  unfold bitsAt
-  rw [getD_replicate _ _ _ _ hw]
-  simp only [Nat.testBit_two_pow_sub_one, hk, decide_true, true_iff]
-  refine ⟨(coprime30_add w _).2 ((coprime30_iff_wheel _ (wheelNum_lt hk)).2 ⟨k, hk, rfl⟩), ?_⟩
-  intro j h4 h3; omega
+  refine ⟨by simp, fun w hw k hk => ?_, fun w hw => ?_⟩
+  · unfold bitsAt
+    rw [getD_replicate _ _ _ _ hw]
+    simp only [Nat.testBit_two_pow_sub_one, hk, decide_true, true_iff]
+    refine ⟨(coprime30_add w _).2 ((coprime30_iff_wheel _ (wheelNum_lt hk)).2 ⟨k, hk, rfl⟩), ?_⟩
+    intro j h4 h3; omega
+  · unfold bitsAt
+    rw [getD_replicate _ _ _ _ hw]
+    norm_num
 
 /-- **one level of `init_cache`** (phi.cpp:255-272): from the bits of level `l` to the bits — and, above
     `PhiTiny::max_a()`, the prefix counts — of level `l + 1` -/
@@ -70,8 +75,18 @@ theorem sieveLevel_ok {S l maxX : ℕ} {prev : Row} (hl : 3 ≤ l) (hmax : maxX 
   obtain ⟨row2, hrow2⟩ : ∃ r : Row, r = crossOff maxX (q * 2) (maxX + 1) (q * q) row1 := ⟨_, rfl⟩
   obtain ⟨h2s, _, h2b⟩ := crossOff_spec maxX (q * 2) (maxX + 1) (q * q) row1 (by nlinarith)
   rw [← hrow2, h1s] at h2s h2b
+  have h1le : ∀ w, w < S → bitsAt row1 w ≤ bitsAt prev w := by
+    intro w hw
+    rw [hrow1]
+    split
+    · exact bitsAt_clearBit_le _ _ _ (by rw [h.size]; exact hw)
+    · exact le_rfl
+  have h2le : ∀ w, w < S → bitsAt row2 w ≤ bitsAt row1 w := by
+    intro w hw
+    rw [hrow2]
+    exact crossOff_le _ _ _ _ _ w (by rw [h1s]; exact hw)
   have hok2 : RowOK S (l + 1) row2 := by
-    refine ⟨h2s, fun w hw k hk => ?_⟩
+    refine ⟨h2s, fun w hw k hk => ?_, fun w hw => lt_of_le_of_lt (le_trans (h2le w hw) (h1le w hw)) (h.lt w hw)⟩
     have hwl := wheelNum_lt hk
     rw [h2b w k hw hk, h1b w k hw hk, surv_succ hl]
     constructor
@@ -101,7 +116,8 @@ theorem sieveLevel_ok {S l maxX : ℕ} {prev : Row} (hl : 3 ≤ l) (hmax : maxX 
   rw [hc0] at c1 c2 c4
   have hfill : RowCnt S (l + 1) (countFill row2) := by
     unfold countFill
-    refine ⟨⟨by rw [c1, h2s], fun w hw => by rw [c2 w]; exact hok2.bits w hw⟩, fun w hw => ?_⟩
+    refine ⟨⟨by rw [c1, h2s], fun w hw => by rw [c2 w]; exact hok2.bits w hw,
+      fun w hw => by rw [c2 w]; exact hok2.lt w hw⟩, fun w hw => ?_⟩
     rw [c4 w (Nat.zero_le _) (by rw [h2s]; exact hw)]
     have : c w ≤ 240 * w := Nat.count_le _
     exact Nat.mod_eq_of_lt (by omega)
